@@ -1,3 +1,187 @@
-import RlibModel.Model.Common
-/-! Line-protocol driver for engine `geometry` (stub: to be written by the engine's author). -/
-def main : IO Unit := pure ()
+import RlibModel.Model.GeometrySpec
+/-!
+Line-protocol driver for engine `geometry` (property C10).
+
+Case lines (numbers: decimal integers or `h` + 16 hex digits of an f64 bit pattern; `<eps>` is
+`util::EPS` as extracted from the source; `<L>` is `B ux uy vx vy` (`Line::between`) or `N a b c`
+(`Line::new`)):
+
+    cl K|P <eps> cx cy r <L>          intersect_cl
+    cc K|P <eps> ax ay ar bx by br    intersect_cc
+    ll K|P <eps> <L> <L>              parallel + intersect_ll
+    pos <eps> cx cy r px py           Circle::position
+    con <eps> <L> px py               Line::contains
+    ln <eps> <L>                      the constructed line itself
+
+`M` = result of the `Float` instance of the model (coordinates as bit patterns);
+mode `K`: view = reported kind, `S` = exact kind or `any` inside the tolerance band / outside the domain;
+mode `P`: view = `ok` iff every returned point is within 1e-7 of both primitives (evaluated exactly
+over the rationals on the model's coordinates), `S` = `ok` in the domain.
+-/
+open Rlib Rlib.Geometry
+
+def qOf (f : Float) : Q := (Q.ofFloat? f).getD ⟨0, 1⟩
+def finite (f : Float) : Bool := !(f.isNaN || f.isInf)
+
+def qPointOf? (p : Point Float) : Option QPoint :=
+  match Q.ofFloat? p.x, Q.ofFloat? p.y with
+  | some x, some y => some ⟨x, y⟩
+  | _, _ => none
+
+def thousand : Q := Q.ofInt 1000
+def coordOk (f : Float) : Bool := finite f && (qOf f).abs.le thousand
+def radiusOk (f : Float) : Bool := finite f && (Q.tenPowNeg 1).le (qOf f) && (qOf f).le thousand
+
+/-- a parsed line: the model's `Line Float`, the exact line, "inside the property's domain" -/
+structure LineIn where
+  fl : Line Float
+  q : QLine
+  dom : Bool
+
+def parseLine (G : Geo Float) : List String → Option (LineIn × List String)
+  | "B" :: t1 :: t2 :: t3 :: t4 :: rest =>
+    match parseNum? t1, parseNum? t2, parseNum? t3, parseNum? t4 with
+    | some ux, some uy, some vx, some vy =>
+      let qu : QPoint := ⟨qOf ux, qOf uy⟩
+      let qv : QPoint := ⟨qOf vx, qOf vy⟩
+      -- well-separated defining points: |u - v| ≥ 1
+      let dom := coordOk ux && coordOk uy && coordOk vx && coordOk vy && (Q.ofInt 1).le (qDist2 qu qv)
+      some (⟨lineBetween G ⟨ux, uy⟩ ⟨vx, vy⟩, qLineBetween qu qv, dom⟩, rest)
+    | _, _, _, _ => none
+  | "N" :: t1 :: t2 :: t3 :: rest =>
+    match parseNum? t1, parseNum? t2, parseNum? t3 with
+    | some a, some b, some c =>
+      let q : QLine := ⟨qOf a, qOf b, qOf c⟩
+      -- normal of moderate length, line passes within 1000·√2 of the origin
+      let dom := finite a && finite b && finite c && (Q.tenPowNeg 6).le q.n2 && q.n2.le (Q.ofInt 2000000)
+        && q.C.sq.le (Q.ofInt 2000000 * q.n2)
+      some (⟨lineNew G a b c, q, dom⟩, rest)
+    | _, _, _ => none
+  | _ => none
+
+def parseNums? (ts : List String) : Option (List Float) := ts.mapM parseNum?
+
+def allNear (ps : List (Point Float)) (f : QPoint → Bool) : Bool :=
+  ps.all fun p => match qPointOf? p with
+    | some q => f q
+    | none => false
+
+def okOff (b : Bool) : String := if b then "ok" else "off"
+def specOr (dom : Bool) (s : Option String) : String :=
+  if dom then s.getD "any" else "any"
+
+def handle (line : String) : String :=
+  match tokens line with
+  | "cl" :: mode :: e :: t1 :: t2 :: t3 :: rest =>
+    match parseNum? e, parseNum? t1, parseNum? t2, parseNum? t3 with
+    | some eps, some cx, some cy, some r =>
+      let G := floatGeo eps
+      match parseLine G rest with
+      | some (l, []) =>
+        let res := intersectCL G ⟨⟨cx, cy⟩, r⟩ l.fl
+        let qc : QCircle := ⟨⟨qOf cx, qOf cy⟩, qOf r⟩
+        let dom := l.dom && coordOk cx && coordOk cy && radiusOk r
+        if mode = "K" then answer3 (showCL res) res.kind (specOr dom (specKindCL qc l.q))
+        else if mode = "P" then
+          answer3 (showCL res) (okOff (allNear res.points fun p => nearCircle qc p && nearLine l.q p)) (if dom then "ok" else "any")
+        else badLine line
+      | _ => badLine line
+    | _, _, _, _ => badLine line
+  | "cc" :: mode :: e :: rest =>
+    match parseNum? e, parseNums? rest with
+    | some eps, some [ax, ay, ar, bx, by', br] =>
+      let G := floatGeo eps
+      let res := intersectCC G ⟨⟨ax, ay⟩, ar⟩ ⟨⟨bx, by'⟩, br⟩
+      let qa : QCircle := ⟨⟨qOf ax, qOf ay⟩, qOf ar⟩
+      let qb : QCircle := ⟨⟨qOf bx, qOf by'⟩, qOf br⟩
+      let d2 := qDist2 qa.c qb.c
+      -- centres coincide exactly or are well separated
+      let dom := coordOk ax && coordOk ay && coordOk bx && coordOk by' && radiusOk ar && radiusOk br
+        && (d2.isZero || (Q.tenPowNeg 2).le d2)
+      if mode = "K" then answer3 (showCC res) res.kind (specOr dom (specKindCC qa qb))
+      else if mode = "P" then
+        answer3 (showCC res) (okOff (allNear res.points fun p => nearCircle qa p && nearCircle qb p)) (if dom then "ok" else "any")
+      else badLine line
+    | _, _ => badLine line
+  | "ll" :: mode :: e :: rest =>
+    match parseNum? e with
+    | some eps =>
+      let G := floatGeo eps
+      match parseLine G rest with
+      | some (u, rest2) =>
+        match parseLine G rest2 with
+        | some (v, []) =>
+          let res := intersectLL G u.fl v.fl
+          let par := parallel G u.fl v.fl
+          let raw := (match res with
+            | none => "None"
+            | some p => "Some " ++ showPoint p) ++ " par=" ++ showBool par
+          let dom := u.dom && v.dom
+          if mode = "K" then
+            answer3 raw (match res with | none => "None" | some _ => "Some") (specOr dom (specKindLL u.q v.q))
+          else if mode = "P" then
+            -- well-conditioned: |sin| ≥ 1e-2 and the exact intersection point within the coordinate range
+            let (pt, det) := specPointLL u.q v.q
+            let wc := (Q.tenPowNeg 4 * (u.q.n2 * v.q.n2)).le det.sq
+              && pt.x.abs.le (thousand * det.abs) && pt.y.abs.le (thousand * det.abs)
+            answer3 raw (okOff (allNear res.toList fun p => nearLine u.q p && nearLine v.q p))
+              (if dom && wc then "ok" else "any")
+          else badLine line
+        | _ => badLine line
+      | none => badLine line
+    | none => badLine line
+  | "pos" :: e :: rest =>
+    match parseNum? e, parseNums? rest with
+    | some eps, some [cx, cy, r, px, py] =>
+      let G := floatGeo eps
+      let res := (position G ⟨⟨cx, cy⟩, r⟩ ⟨px, py⟩).toString
+      let dom := coordOk cx && coordOk cy && radiusOk r && coordOk px && coordOk py
+      answer3 res res (specOr dom (specPosition ⟨⟨qOf cx, qOf cy⟩, qOf r⟩ ⟨qOf px, qOf py⟩))
+    | _, _ => badLine line
+  | "con" :: e :: rest =>
+    match parseNum? e with
+    | some eps =>
+      let G := floatGeo eps
+      match parseLine G rest with
+      | some (l, [t1, t2]) =>
+        match parseNum? t1, parseNum? t2 with
+        | some px, some py =>
+          let res := showBool (lineContains G l.fl ⟨px, py⟩)
+          let dom := l.dom && coordOk px && coordOk py
+          answer3 (res ++ " " ++ showNum (lineDist G l.fl ⟨px, py⟩)) res (specOr dom (specContains l.q ⟨qOf px, qOf py⟩))
+        | _, _ => badLine line
+      | _ => badLine line
+    | none => badLine line
+  | "ln" :: e :: rest =>
+    match parseNum? e with
+    | some eps =>
+      let G := floatGeo eps
+      match parseLine G rest with
+      | some (l, []) =>
+        let raw := showNum l.fl.a ++ " " ++ showNum l.fl.b ++ " " ++ showNum l.fl.c
+        -- view: the stored normal has unit length (to 1e-9) and the stored line is the exact line
+        -- (two points of the exact line about one unit apart are within 1e-7 of the stored one)
+        let view :=
+          match Q.ofFloat? l.fl.a, Q.ofFloat? l.fl.b, Q.ofFloat? l.fl.c with
+          | some a, some b, some c =>
+            let n2 := a.sq + b.sq
+            let e9 := Q.tenPowNeg 9
+            let unit := (Q.ofInt 1 - e9).le n2 && n2.le (Q.ofInt 1 + e9)
+            -- P0 = foot of the origin on the exact line (homogeneous: divide by n2), P1 = P0 + t·(−B, A)
+            let q := l.q
+            let on :=
+              if q.n2.isZero then false else
+              -- stored.eval(P0)·n2 = a·(−A·C) + b·(−B·C) + c·n2
+              let e0 := a * (-(q.A * q.C)) + b * (-(q.B * q.C)) + c * q.n2
+              let s := q.A.abs + q.B.abs
+              -- stored.eval(P1)·n2·s = e0·s + (a·(−B) + b·A)·n2
+              let e1 := e0 * s + (a * (-q.B) + b * q.A) * q.n2
+              e0.sq.le (tol.sq * n2 * q.n2.sq) && e1.sq.le (tol.sq * n2 * (q.n2 * s).sq)
+            (if unit then "unit" else "nonunit") ++ " " ++ (if on then "on" else "off")
+          | _, _, _ => "nan"
+        answer3 raw view (if l.dom then "unit on" else "any")
+      | _ => badLine line
+    | none => badLine line
+  | _ => badLine line
+
+def main : IO Unit := driverMain handle
